@@ -532,6 +532,11 @@ def run_check(spec, tier, seed, replay=None):
     if hasattr(spec, "not_fail"):
         fails = [i for i in fails if not spec.not_fail(cases[i], impl[i], judge[i])]
     log("cases=%d diffs=%d judge-fails=%d crashes=%d" % (len(reqs), len(diffs), len(fails), ncrash))
+    if hasattr(spec, "judge_notes"):
+        # optional: a check summarises what its judge reported beyond ok/fail (e.g. hypothesis coverage of a partial theorem)
+        for n in spec.judge_notes(cases, impl, judge):
+            notes.append(n)
+            log(n)
 
     if replay is not None:
         print("request : " + replay)
